@@ -299,8 +299,24 @@ def run_uplink(ctx, verdict, pid):
     return broken
 
 
+def run_deadlines(ctx, verdict, pid):
+    """TLSConn's pass-through methods reach the underlying connection unchanged (harness/common/relay_copy_test.go)"""
+    inp, out = '%s/relay_dl.in' % ctx.work, '%s/relay_dl.out' % ctx.work
+    open(inp, 'w').write('dl0 D\n')
+    rc, log, dt = vlib.go_test(ctx, 'common', 'TestVerifRelayDeadlines', files=['relay_copy_test.go'], env=dict(VERIF_IN=inp, VERIF_OUT=out), timeout=300)
+    got = vlib.read_lines_by_id(out)
+    if rc != 0 or 'dl0' not in got:
+        return [('Go driver TestVerifRelayDeadlines failed rc=%d' % rc, log[-2000:])]
+    want = 'SetDeadline=d:1700000001000000011 SetReadDeadline=r:1700000002000000022 SetWriteDeadline=w:1700000003000000033 Close=c'
+    if got['dl0'] != want:
+        verdict.oracle_failure('tlsconn-passthrough', '%s oracle: common.TLSConn does not pass its deadline / close calls through to the underlying connection unchanged (each as the same single call with the same argument): observed %s' % (pid, got['dl0']),
+                               dict(kind='relay-deadlines', case='dl0 D', observed=got['dl0'], expected=want, how='go test -run TestVerifRelayDeadlines with harness/common/relay_copy_test.go'))
+    verdict.cov['tlsconn_passthrough'] = got['dl0']
+    return []
+
+
 def run(ctx, verdict, pid):
-    return run_copy(ctx, verdict, pid) + run_uplink(ctx, verdict, pid) + run_serve(ctx, verdict, pid)
+    return run_copy(ctx, verdict, pid) + run_uplink(ctx, verdict, pid) + run_serve(ctx, verdict, pid) + run_deadlines(ctx, verdict, pid)
 
 
 def replay(ctx, verdict, pid):
